@@ -501,6 +501,118 @@ theorem many_safe {α} (range : α → Range) (parseT : Option α → P α) (s :
   exact many0_safe ctx _ s.refPos _ s hw (loopFuel_ok ctx s hw) rfl
     (fun s' w l _ => refParse_safe ctx w (hp s' w l))
 
+/-! ### progress and absence of errors -/
+
+/-- a successful run consumes at least one token -/
+def Strict {α} (p : P α) (s : St) : Prop := ∀ s' a, p s = .ok s' a → s.pos < s'.pos
+
+/-- the parser does not fail (it succeeds or — excluded elsewhere — panics) -/
+def NoErr {α} (p : P α) (s : St) : Prop := ∀ k x, p s ≠ .err k x
+
+theorem bind_ok_inv {α β} {p : P α} {f : α → P β} {s s' : St} {b : β} (h : Parse.bind p f s = .ok s' b) :
+    ∃ s1 a, p s = .ok s1 a ∧ f a s1 = .ok s' b := by
+  unfold Parse.bind at h
+  cases hp : p s with
+  | ok s1 a => rw [hp] at h; exact ⟨s1, a, rfl, h⟩
+  | err k x => rw [hp] at h; cases h
+  | panic e => rw [hp] at h; cases h
+
+theorem strict_bind_left {α β} {p : P α} {f : α → P β} {s : St} (hs : Strict p s)
+    (hf : ∀ s1 a, p s = .ok s1 a → Safe ctx (f a) s1) : Strict (Parse.bind p f) s := by
+  intro s' b h
+  obtain ⟨s1, a, h1, h2⟩ := bind_ok_inv h
+  have := hs s1 a h1
+  have := ((hf s1 a h1).ok _ _ h2).1
+  omega
+
+theorem strict_bind_right {α β} {p : P α} {f : α → P β} {s : St} (hp : Safe ctx p s)
+    (hf : ∀ s1 a, p s = .ok s1 a → Strict (f a) s1) : Strict (Parse.bind p f) s := by
+  intro s' b h
+  obtain ⟨s1, a, h1, h2⟩ := bind_ok_inv h
+  have := (hp.ok _ _ h1).1
+  have := hf s1 a h1 s' b h2
+  omega
+
+theorem strict_pmap {α β} {p : P α} (f : α → β) {s : St} (hs : Strict p s) : Strict (pmap f p) s := by
+  intro s' b h
+  unfold pmap at h
+  cases hp : p s with
+  | ok s1 a => rw [hp] at h; cases h; exact hs _ _ hp
+  | err k x => rw [hp] at h; cases h
+  | panic e => rw [hp] at h; cases h
+
+theorem strict_alt2 {α} {p q : P α} {s : St} (hp : Strict p s) (hq : Strict q s) : Strict (alt2 p q) s := by
+  intro s' b h
+  unfold alt2 at h
+  cases h1 : p s with
+  | ok s1 a => rw [h1] at h; cases h; exact hp _ _ h1
+  | err k x => rw [h1] at h; exact hq _ _ h
+  | panic e => rw [h1] at h; cases h
+
+theorem strict_altList {α} {s : St} : ∀ (ps : List (P α)), (∀ p ∈ ps, Strict p s) → Strict (altList ps) s
+  | [], _ => by intro s' a h; cases h
+  | [p], h => by simpa [altList] using h p (by simp)
+  | p :: q :: ps, h => by
+    simp only [altList]
+    exact strict_alt2 (h p (by simp)) (strict_altList (q :: ps) (fun x hx => h x (List.mem_cons_of_mem _ hx)))
+
+theorem strict_congr {α} {p q : P α} {s : St} (e : p s = q s) (h : Strict q s) : Strict p s := by
+  intro s' a hx; rw [e] at hx; exact h _ _ hx
+
+theorem noerr_bind {α β} {p : P α} {f : α → P β} {s : St} (hp : NoErr p s)
+    (hf : ∀ s1 a, p s = .ok s1 a → NoErr (f a) s1) : NoErr (Parse.bind p f) s := by
+  intro k x h
+  unfold Parse.bind at h
+  cases h1 : p s with
+  | ok s1 a => rw [h1] at h; exact hf s1 a h1 k x h
+  | err k' x' => exact hp k' x' h1
+  | panic e => rw [h1] at h; cases h
+
+theorem noerr_pmap {α β} {p : P α} (f : α → β) {s : St} (hp : NoErr p s) : NoErr (pmap f p) s := by
+  intro k x h
+  unfold pmap at h
+  cases h1 : p s with
+  | ok s1 a => rw [h1] at h; cases h
+  | err k' x' => exact hp k' x' h1
+  | panic e => rw [h1] at h; cases h
+
+theorem noerr_alt2 {α} {p q : P α} {s : St} (hq : NoErr q s) : NoErr (alt2 p q) s := by
+  intro k x h
+  unfold alt2 at h
+  cases h1 : p s with
+  | ok s1 a => rw [h1] at h; cases h
+  | err k' x' => rw [h1] at h; exact hq k x h
+  | panic e => rw [h1] at h; cases h
+
+theorem noerr_pure {α} (a : α) (s : St) : NoErr (pure' a) s := by intro k x h; cases h
+
+theorem noerr_congr {α} {p q : P α} {s : St} (e : p s = q s) (h : NoErr q s) : NoErr p s := by
+  intro k x hx; rw [e] at hx; exact h _ _ hx
+
+/-- a loop whose element always consumes something never stops with the no-progress error -/
+theorem many0_noerr {α} (p : P α) (r : Nat) : ∀ (fuel : Nat) (s : St), WF ctx s → s.refPos = r →
+    (∀ s', WF ctx s' → s.pos ≤ s'.pos → s'.refPos = r → Safe ctx p s' ∧ Strict p s') → NoErr (many0 p fuel) s
+  | 0, s, _, _, _ => by intro k x h; cases h
+  | fuel + 1, s, hw, hr, hp => by
+    intro k x h
+    simp only [many0] at h
+    obtain ⟨h0, hs0⟩ := hp s hw (Nat.le_refl _) hr
+    cases h1 : p s with
+    | err k' x' => rw [h1] at h; cases h
+    | panic e => rw [h1] at h; cases h
+    | ok s1 a =>
+      rw [h1] at h
+      have hlt := hs0 s1 a h1
+      have hpost := h0.ok _ _ h1
+      have hb : (s1.pos == s.pos) = false := by simp; omega
+      simp only [hb, Bool.false_eq_true, if_false] at h
+      cases h2 : many0 p fuel s1 with
+      | ok s2 as => rw [h2] at h; cases h
+      | err k' x' =>
+        exact many0_noerr p r fuel s1 (hpost.wf ctx hw) (by rw [hpost.2.2.1, hr])
+          (fun s' w l rr => hp s' w (by omega) rr) k' x' h2
+      | panic e => rw [h2] at h; cases h
+
 /-! ### leaves -/
 
 theorem affected_none {α} (ops : NodeOps α) (inner : P α) : affected ctx ops none inner = inner := rfl
@@ -805,6 +917,67 @@ theorem tkbind_safe {β} (k : Kind) (f : Token → P β) (s : St) (hw : WF ctx s
   bind_safe ctx (tk_safe ctx k s hw hk) (fun s' t h =>
     hf s' t ((tk_safe ctx k s hw hk).wf_ok ctx hw h) (tk_ok ctx hw h).1 ((tk_safe ctx k s hw hk).ok _ _ h).2.2.1)
 
+theorem strict_tk (k : Kind) (s : St) (hw : WF ctx s) : Strict (tk ctx k) s := fun _ _ h => (tk_ok ctx hw h).1
+
+theorem strict_info {α} {p : P α} {s : St} (hs : Strict p { s with errBuf := [] }) : Strict (info p) s := by
+  intro s' r h
+  obtain ⟨s1, a, h1, e⟩ := info_progress h
+  rw [e]
+  exact hs _ _ h1
+
+theorem strict_refParse {α} {parseT : Option α → P α} {s : St} (hs : Strict (parseT none) { s with refPos := s.pos }) :
+    Strict (refParse parseT none) s := by
+  intro s' r h
+  unfold refParse at h
+  simp only [Option.map_none, Option.isSome_none] at h
+  split at h
+  · cases h
+  · cases hp : parseT none { s with refPos := s.pos } with
+    | ok s1 a =>
+      rw [hp] at h
+      simp only [Bool.false_eq_true, if_false, Res.ok.injEq] at h
+      obtain ⟨rfl, _⟩ := h
+      exact hs s1 a hp
+    | err k x => rw [hp] at h; cases h
+    | panic e => rw [hp] at h; cases h
+
+theorem strict_ident (s : St) (hw : WF ctx s) : Strict (parseIdentifier ctx none) s :=
+  fun _ _ h => ident_progress ctx hw h
+
+/-- a keyword followed by anything safe: safe, and it consumes the keyword -/
+theorem tkbind_both {β} (k : Kind) (f : Token → P β) (s : St) (hw : WF ctx s)
+    (hf : ∀ s' t, WF ctx s' → s.pos < s'.pos → s'.refPos = s.refPos → Safe ctx (f t) s') (hk : k ≠ Kind.Eof := by decide) :
+    Safe ctx (Parse.bind (tk ctx k) f) s ∧ Strict (Parse.bind (tk ctx k) f) s := by
+  have ht := tk_safe ctx k s hw hk
+  have hf' : ∀ s' t, tk ctx k s = .ok s' t → Safe ctx (f t) s' := fun s' t h =>
+    hf s' t (ht.wf_ok ctx hw h) (tk_ok ctx hw h).1 (ht.ok _ _ h).2.2.1
+  exact ⟨bind_safe ctx ht hf', strict_bind_left ctx (strict_tk ctx k s hw) hf'⟩
+
+theorem bind_both_left {α β} {p : P α} {f : α → P β} {s : St} (hp : Safe ctx p s) (hs : Strict p s)
+    (hf : ∀ s1 a, p s = .ok s1 a → Safe ctx (f a) s1) :
+    Safe ctx (Parse.bind p f) s ∧ Strict (Parse.bind p f) s :=
+  ⟨bind_safe ctx hp hf, strict_bind_left ctx hs hf⟩
+
+theorem docComments_safe (s : St) (hw : WF ctx s) : Safe ctx (docComments ctx) s :=
+  many0_safe ctx _ s.refPos _ s hw (loopFuel_ok ctx s hw) rfl (fun s' w _ _ => comment_safe ctx s' w)
+
+/-- documentation comments, a keyword, then anything safe -/
+theorem doctk_both {β} (k : Kind) (tail : List (List Char) → Token → P β) (s : St) (hw : WF ctx s)
+    (hf : ∀ s2 doc t, WF ctx s2 → s.pos < s2.pos → s2.refPos = s.refPos → Safe ctx (tail doc t) s2)
+    (hk : k ≠ Kind.Eof := by decide) :
+    Safe ctx (Parse.bind (docComments ctx) (fun doc => Parse.bind (tk ctx k) (tail doc))) s ∧
+    Strict (Parse.bind (docComments ctx) (fun doc => Parse.bind (tk ctx k) (tail doc))) s := by
+  have hd := docComments_safe ctx s hw
+  have hb : ∀ s1 doc, docComments ctx s = .ok s1 doc →
+      Safe ctx (Parse.bind (tk ctx k) (tail doc)) s1 ∧ Strict (Parse.bind (tk ctx k) (tail doc)) s1 := by
+    intro s1 doc e1
+    have w1 := hd.wf_ok ctx hw e1
+    have p1 := hd.ok _ _ e1
+    exact tkbind_both ctx k (tail doc) s1 w1 (fun s2 t w2 l2 r2 =>
+      hf s2 doc t w2 (by have := p1.1; omega) (by rw [r2, p1.2.2.1])) hk
+  exact ⟨bind_safe ctx hd (fun s1 doc e1 => (hb s1 doc e1).1),
+    strict_bind_right ctx hd (fun s1 doc e1 => (hb s1 doc e1).2)⟩
+
 theorem expectInc_safe {α} (p : P α) (msg : Msg) (s : St) (hw : WF ctx s) (hp : Safe ctx p s) :
     Safe ctx (Parse.expect none (inc p) msg) s :=
   (expect_safe ctx msg hw (parser := inc p) hp).1
@@ -1075,6 +1248,22 @@ theorem expression_safe (s : St) (hw : WF ctx s) : Safe ctx (parseExpression ctx
 theorem variable_safe (s : St) (hw : WF ctx s) : Safe ctx (parseVariable ctx (exprFuel ctx) none) s :=
   (esafe ctx _).var s hw (by have := hw.2; simp only [exprFuel]; omega)
 
+/-- a variable starts with its identifier -/
+theorem variable_strict (s : St) (hw : WF ctx s) : Strict (parseVariable ctx (exprFuel ctx) none) s := by
+  have e : exprFuel ctx = (8 * ctx.toks.size + 15) + 1 := rfl
+  rw [e]
+  have ih := esafe ctx (8 * ctx.toks.size + 15)
+  refine strict_congr (parseVariable_eq ctx _ s) ?_
+  have h0 := info_safe ctx hw (pmap_safe ctx Var.named (ident_safe ctx _ (wf_errBuf ctx hw [])))
+  refine strict_bind_left ctx (strict_info (strict_pmap _ (strict_ident ctx _ (wf_errBuf ctx hw [])))) (fun s1 r e1 => ?_)
+  have w1 := h0.wf_ok ctx hw e1
+  refine pmap_safe ctx _ (many0_safe ctx _ s1.refPos _ s1 w1 (loopFuel_ok ctx s1 w1) rfl (fun s2 w2 l2 _ => ?_))
+  refine accessParser_safe ctx _ s2 w2 (fun s3 w3 l3 => ?_)
+  exact refParse_safe ctx w3 (ih.expr _ (wf_reref ctx w3) (by
+    have := w3.2
+    show 8 * (ctx.toks.size - s3.pos) + 8 ≤ 8 * ctx.toks.size + 15
+    omega))
+
 theorem refExpr_safe (s : St) (hw : WF ctx s) : Safe ctx (refExpr ctx none) s :=
   refParse_safe ctx hw (expression_safe ctx _ (wf_reref ctx hw))
 
@@ -1173,13 +1362,17 @@ theorem argument_safe (s : St) (hw : WF ctx s) : Safe ctx (parseArgument ctx non
     exact safe_congr ctx (q := ignoreUntil0 ctx (peek (la ctx .arg)) (loopFuel ctx) s0.pos) rfl
       (ignoreUntil0_safe' ctx _ (peekla_atEof ctx .arg) _ _ s0 w0 (loopFuel_ok ctx s0 w0) (fun s' w _ _ => peekla_safe ctx .arg s' w))
 
-theorem callInner_safe (s : St) (hw : WF ctx s) : Safe ctx (callInner ctx none none) s := by
+theorem callInner_safe (s : St) (hw : WF ctx s) :
+    Safe ctx (callInner ctx none none) s ∧ Strict (callInner ctx none none) s := by
   unfold callInner
   have hid := ident_safe ctx s hw
   have h0 : Safe ctx (Parse.bind (parseIdentifier ctx none) (fun n => Parse.bind (tk ctx .LParen) (fun _ => pure' n))) s :=
     bind_safe ctx hid (fun s1 n e1 =>
       tkbind_safe ctx _ _ s1 (hid.wf_ok ctx hw e1) (fun s2 _ w2 _ _ => pure_safe ctx _ s2 w2))
-  refine bind_safe ctx h0 (fun s1 name e1 => ?_)
+  have h0s : Strict (Parse.bind (parseIdentifier ctx none) (fun n => Parse.bind (tk ctx .LParen) (fun _ => pure' n))) s :=
+    strict_bind_left ctx (strict_ident ctx s hw) (fun s1 n e1 =>
+      tkbind_safe ctx _ _ s1 (hid.wf_ok ctx hw e1) (fun s2 _ w2 _ _ => pure_safe ctx _ s2 w2))
+  refine bind_both_left ctx h0 h0s (fun s1 name e1 => ?_)
   have w1 := h0.wf_ok ctx hw e1
   have hargs : Safe ctx (alt2
       (pmap (fun _ => ([] : List (Ref Expr)))
@@ -1200,9 +1393,10 @@ theorem callInner_safe (s : St) (hw : WF ctx s) : Safe ctx (callInner ctx none n
 
 theorem call_safe (s : St) (hw : WF ctx s) : Safe ctx (parseCall ctx none) s := by
   show Safe ctx (pmap _ (info (callInner ctx none none))) s
-  exact pmap_safe ctx _ (info_safe' ctx hw (fun s0 _ _ w0 => callInner_safe ctx s0 w0))
+  exact pmap_safe ctx _ (info_safe' ctx hw (fun s0 _ _ w0 => (callInner_safe ctx s0 w0).1))
 
-theorem assignInner_safe (s : St) (hw : WF ctx s) : Safe ctx (assignInner ctx none none) s := by
+theorem assignInner_safe (s : St) (hw : WF ctx s) :
+    Safe ctx (assignInner ctx none none) s ∧ Strict (assignInner ctx none none) s := by
   unfold assignInner
   have hv := variable_safe ctx s hw
   have h0 : Safe ctx (Parse.bind (parseVariable ctx (exprFuel ctx) none) (fun v =>
@@ -1212,7 +1406,14 @@ theorem assignInner_safe (s : St) (hw : WF ctx s) : Safe ctx (assignInner ctx no
     have ha := alt2_safe ctx (tk_safe ctx .Assign s1 w1)
       (confusable_safe ctx (.ConfusedToken assignS eqS) w1 (tk_safe ctx .Eq _ (wf_errBuf ctx w1 [])))
     exact bind_safe ctx ha (fun s2 _ e2 => pure_safe ctx _ s2 (ha.wf_ok ctx w1 e2))
-  refine bind_safe ctx h0 (fun s1 v e1 => ?_)
+  have h0s : Strict (Parse.bind (parseVariable ctx (exprFuel ctx) none) (fun v =>
+      Parse.bind (alt2 (tk ctx .Assign) (confusable (tk ctx .Eq) (.ConfusedToken assignS eqS))) (fun _ => pure' v))) s := by
+    refine strict_bind_left ctx (variable_strict ctx s hw) (fun s1 v e1 => ?_)
+    have w1 := hv.wf_ok ctx hw e1
+    have ha := alt2_safe ctx (tk_safe ctx .Assign s1 w1)
+      (confusable_safe ctx (.ConfusedToken assignS eqS) w1 (tk_safe ctx .Eq _ (wf_errBuf ctx w1 [])))
+    exact bind_safe ctx ha (fun s2 _ e2 => pure_safe ctx _ s2 (ha.wf_ok ctx w1 e2))
+  refine bind_both_left ctx h0 h0s (fun s1 v e1 => ?_)
   have w1 := h0.wf_ok ctx hw e1
   have h1 := (expect_safe ctx (.ExpectedToken (chars "expression")) w1 (parser := refExpr ctx) (refExpr_safe ctx s1 w1)).1
   refine bind_safe ctx h1 (fun s2 e e2 => ?_)
@@ -1222,10 +1423,7 @@ theorem assignInner_safe (s : St) (hw : WF ctx s) : Safe ctx (assignInner ctx no
 
 theorem assignment_safe (s : St) (hw : WF ctx s) : Safe ctx (parseAssignment ctx none) s := by
   show Safe ctx (pmap _ (info (assignInner ctx none none))) s
-  exact pmap_safe ctx _ (info_safe' ctx hw (fun s0 _ _ w0 => assignInner_safe ctx s0 w0))
-
-theorem docComments_safe (s : St) (hw : WF ctx s) : Safe ctx (docComments ctx) s :=
-  many0_safe ctx _ s.refPos _ s hw (loopFuel_ok ctx s hw) rfl (fun s' w _ _ => comment_safe ctx s' w)
+  exact pmap_safe ctx _ (info_safe' ctx hw (fun s0 _ _ w0 => (assignInner_safe ctx s0 w0).1))
 
 theorem stmtParseError_safe (s : St) (hw : WF ctx s) : Safe ctx (stmtParseError ctx) s := by
   have h0 : Safe ctx (pmap (fun (p : List Token × AstInfo) =>
@@ -1251,9 +1449,9 @@ theorem stmtParseError_safe (s : St) (hw : WF ctx s) : Safe ctx (stmtParseError 
 /-! ### statements -/
 
 theorem ifInner_safe (ps : Option (Ref Stmt) → P (Ref Stmt)) (s : St) (hw : WF ctx s)
-    (hps : ∀ s', WF ctx s' → s.pos < s'.pos → Safe ctx (ps none) s') : Safe ctx (ifInner ctx none none none ps) s := by
+    (hps : ∀ s', WF ctx s' → s.pos < s'.pos → Safe ctx (ps none) s') : Safe ctx (ifInner ctx none none none ps) s ∧ Strict (ifInner ctx none none none ps) s := by
   unfold ifInner
-  refine tkbind_safe ctx _ _ s hw (fun s1 _ w1 l1 _ => ?_)
+  refine tkbind_both ctx _ _ s hw (fun s1 _ w1 l1 _ => ?_)
   have h1 := expectInc_safe ctx (tk ctx .LParen) (.MissingOpening '(') s1 w1 (tk_safe ctx _ s1 w1)
   refine bind_safe ctx h1 (fun s2 _ e2 => ?_)
   have w2 := h1.wf_ok ctx w1 e2
@@ -1278,9 +1476,9 @@ theorem ifInner_safe (ps : Option (Ref Stmt) → P (Ref Stmt)) (s : St) (hw : WF
   exact bind_safe ctx h5 (fun s6 _ e6 => pure_safe ctx _ s6 (h5.wf_ok ctx w5 e6))
 
 theorem whileInner_safe (ps : Option (Ref Stmt) → P (Ref Stmt)) (s : St) (hw : WF ctx s)
-    (hps : ∀ s', WF ctx s' → s.pos < s'.pos → Safe ctx (ps none) s') : Safe ctx (whileInner ctx none none ps) s := by
+    (hps : ∀ s', WF ctx s' → s.pos < s'.pos → Safe ctx (ps none) s') : Safe ctx (whileInner ctx none none ps) s ∧ Strict (whileInner ctx none none ps) s := by
   unfold whileInner
-  refine tkbind_safe ctx _ _ s hw (fun s1 _ w1 l1 _ => ?_)
+  refine tkbind_both ctx _ _ s hw (fun s1 _ w1 l1 _ => ?_)
   have h1 := expectInc_safe ctx (tk ctx .LParen) (.MissingOpening '(') s1 w1 (tk_safe ctx _ s1 w1)
   refine bind_safe ctx h1 (fun s2 _ e2 => ?_)
   have w2 := h1.wf_ok ctx w1 e2
@@ -1299,9 +1497,9 @@ theorem whileInner_safe (ps : Option (Ref Stmt) → P (Ref Stmt)) (s : St) (hw :
 
 theorem blockInner_safe (pstmt : Option Stmt → P Stmt) (s : St) (hw : WF ctx s)
     (hp : ∀ s', WF ctx s' → s.pos < s'.pos → Safe ctx (pstmt none) { s' with refPos := s'.pos }) :
-    Safe ctx (blockInner ctx none pstmt) s := by
+    Safe ctx (blockInner ctx none pstmt) s ∧ Strict (blockInner ctx none pstmt) s := by
   unfold blockInner
-  refine tkbind_safe ctx _ _ s hw (fun s1 _ w1 l1 _ => ?_)
+  refine tkbind_both ctx _ _ s hw (fun s1 _ w1 l1 _ => ?_)
   have h1 := many_safe ctx (fun (s : Stmt) => s.info.range) pstmt s1 w1 (fun s' w l => hp s' w (by omega))
   refine bind_safe ctx h1 (fun s2 _ e2 => ?_)
   have w2 := h1.wf_ok ctx w1 e2
@@ -1339,7 +1537,7 @@ theorem ssafe : ∀ F, SSafe ctx F
     · intro s hw hf
       show Safe ctx (pmap _ (info (ifInner ctx none none none (refParse (parseStmt ctx F))))) s
       refine pmap_safe ctx _ (info_safe' ctx hw (fun s0 e0 r0 w0 => ?_))
-      refine ifInner_safe ctx _ s0 w0 (fun s1 w1 l1 => ?_)
+      refine (ifInner_safe ctx _ s0 w0 (fun s1 w1 l1 => ?_)).1
       exact refParse_safe ctx w1 (ih.stmt _ (wf_reref ctx w1) (by
         have := w1.2
         show 2 * (ctx.toks.size - s1.pos) + 2 ≤ F
@@ -1347,7 +1545,7 @@ theorem ssafe : ∀ F, SSafe ctx F
     · intro s hw hf
       show Safe ctx (pmap _ (info (whileInner ctx none none (refParse (parseStmt ctx F))))) s
       refine pmap_safe ctx _ (info_safe' ctx hw (fun s0 e0 r0 w0 => ?_))
-      refine whileInner_safe ctx _ s0 w0 (fun s1 w1 l1 => ?_)
+      refine (whileInner_safe ctx _ s0 w0 (fun s1 w1 l1 => ?_)).1
       exact refParse_safe ctx w1 (ih.stmt _ (wf_reref ctx w1) (by
         have := w1.2
         show 2 * (ctx.toks.size - s1.pos) + 2 ≤ F
@@ -1355,7 +1553,7 @@ theorem ssafe : ∀ F, SSafe ctx F
     · intro s hw hf
       show Safe ctx (pmap _ (info (blockInner ctx none (parseStmt ctx F)))) s
       refine pmap_safe ctx _ (info_safe' ctx hw (fun s0 e0 r0 w0 => ?_))
-      refine blockInner_safe ctx _ s0 w0 (fun s1 w1 l1 => ?_)
+      refine (blockInner_safe ctx _ s0 w0 (fun s1 w1 l1 => ?_)).1
       exact ih.stmt _ (wf_reref ctx w1) (by
         have := w1.2
         show 2 * (ctx.toks.size - s1.pos) + 2 ≤ F
@@ -1398,28 +1596,24 @@ theorem declTail_safe (k k1 k2 : Kind) (m1 m2 m3 : Msg) (doc : List (List Char))
   have h4 := expectInc_safe ctx (tk ctx .Semic) .MissingTrailingSemic s4 w4 (tk_safe ctx _ s4 w4)
   exact bind_safe ctx h4 (fun s5 _ e5 => pure_safe ctx _ s5 (h4.wf_ok ctx w4 e5))
 
-theorem typeDeclInner_safe (s : St) (hw : WF ctx s) : Safe ctx (typeDeclInner ctx none none) s := by
+theorem typeDeclInner_safe (s : St) (hw : WF ctx s) :
+    Safe ctx (typeDeclInner ctx none none) s ∧ Strict (typeDeclInner ctx none none) s := by
   unfold typeDeclInner
-  have hd := docComments_safe ctx s hw
-  refine bind_safe ctx hd (fun s1 doc e1 => ?_)
-  have w1 := hd.wf_ok ctx hw e1
-  exact tkbind_safe ctx _ _ s1 w1 (fun s2 _ w2 _ _ => declTail_safe ctx _ _ _ _ _ _ doc s2 w2 (by decide) (by decide) (by decide))
+  exact doctk_both ctx .Type _ s hw (fun s2 doc _ w2 _ _ => declTail_safe ctx _ _ _ _ _ _ doc s2 w2 (by decide) (by decide) (by decide))
 
 theorem typeDecl_safe (s : St) (hw : WF ctx s) : Safe ctx (parseTypeDecl ctx none) s := by
   show Safe ctx (pmap _ (info (typeDeclInner ctx none none))) s
-  exact pmap_safe ctx _ (info_safe' ctx hw (fun s0 _ _ w0 => typeDeclInner_safe ctx s0 w0))
+  exact pmap_safe ctx _ (info_safe' ctx hw (fun s0 _ _ w0 => (typeDeclInner_safe ctx s0 w0).1))
 
-theorem varDeclInner_safe (s : St) (hw : WF ctx s) : Safe ctx (varDeclInner ctx none none) s := by
+theorem varDeclInner_safe (s : St) (hw : WF ctx s) :
+    Safe ctx (varDeclInner ctx none none) s ∧ Strict (varDeclInner ctx none none) s := by
   unfold varDeclInner
-  have hd := docComments_safe ctx s hw
-  refine bind_safe ctx hd (fun s1 doc e1 => ?_)
-  have w1 := hd.wf_ok ctx hw e1
-  exact tkbind_safe ctx _ _ s1 w1 (fun s2 _ w2 _ _ => declTail_safe ctx _ _ _ _ _ _ doc s2 w2 (by decide) (by decide) (by decide))
+  exact doctk_both ctx .Var _ s hw (fun s2 doc _ w2 _ _ => declTail_safe ctx _ _ _ _ _ _ doc s2 w2 (by decide) (by decide) (by decide))
 
 theorem varDecl_safe (s : St) (hw : WF ctx s) : Safe ctx (parseVarDecl ctx none) s := by
   show Safe ctx (alt2 (pmap _ (info (varDeclInner ctx none none))) (pmap _ (info (ignoreUntil1 ctx (peek (la ctx .var_dec)) (loopFuel ctx))))) s
   refine alt2_safe ctx ?_ ?_
-  · exact pmap_safe ctx _ (info_safe' ctx hw (fun s0 _ _ w0 => varDeclInner_safe ctx s0 w0))
+  · exact pmap_safe ctx _ (info_safe' ctx hw (fun s0 _ _ w0 => (varDeclInner_safe ctx s0 w0).1))
   · refine pmap_safe ctx _ (info_safe' ctx hw (fun s0 _ _ w0 => ?_))
     exact ignoreUntil1_safe ctx _ (peekla_atEof ctx .var_dec) _ s0 w0 (loopFuel_ok ctx s0 w0) (fun s' w _ _ => peekla_safe ctx .var_dec s' w)
 
@@ -1455,12 +1649,10 @@ theorem paramDecl_safe (s : St) (hw : WF ctx s) : Safe ctx (parseParamDecl ctx n
     exact safe_congr ctx (q := ignoreUntil0 ctx (peek (la ctx .param_dec)) (loopFuel ctx) s0.pos) rfl
       (ignoreUntil0_safe' ctx _ (peekla_atEof ctx .param_dec) _ _ s0 w0 (loopFuel_ok ctx s0 w0) (fun s' w _ _ => peekla_safe ctx .param_dec s' w))
 
-theorem procDeclInner_safe (s : St) (hw : WF ctx s) : Safe ctx (procDeclInner ctx none) s := by
+theorem procDeclInner_safe (s : St) (hw : WF ctx s) :
+    Safe ctx (procDeclInner ctx none) s ∧ Strict (procDeclInner ctx none) s := by
   unfold procDeclInner
-  have hd := docComments_safe ctx s hw
-  refine bind_safe ctx hd (fun s1 doc e1 => ?_)
-  have w1 := hd.wf_ok ctx hw e1
-  refine tkbind_safe ctx _ _ s1 w1 (fun s2 _ w2 _ _ => ?_)
+  refine doctk_both ctx .Proc _ s hw (fun s2 doc _ w2 _ _ => ?_)
   have h2 := (expect_safe ctx (.ExpectedToken (chars "identifier")) w2 (parser := parseIdentifier ctx) (ident_safe ctx s2 w2)).1
   refine bind_safe ctx h2 (fun s3 _ e3 => ?_)
   have w3 := h2.wf_ok ctx w2 e3
@@ -1497,7 +1689,7 @@ theorem procDeclInner_safe (s : St) (hw : WF ctx s) : Safe ctx (procDeclInner ct
 
 theorem procDecl_safe (s : St) (hw : WF ctx s) : Safe ctx (parseProcDecl ctx none) s := by
   show Safe ctx (pmap _ (info (procDeclInner ctx none))) s
-  exact pmap_safe ctx _ (info_safe' ctx hw (fun s0 _ _ w0 => procDeclInner_safe ctx s0 w0))
+  exact pmap_safe ctx _ (info_safe' ctx hw (fun s0 _ _ w0 => (procDeclInner_safe ctx s0 w0).1))
 
 theorem globalDecl_safe (s : St) (hw : WF ctx s) : Safe ctx (parseGlobalDecl ctx none) s := by
   show Safe ctx (altList [pmap GlobalDecl.type (parseTypeDecl ctx none), pmap GlobalDecl.proc (parseProcDecl ctx none),
@@ -1565,5 +1757,626 @@ theorem program_safe : SafeW ctx (parseProgram ctx none) { pos := 0 } := by
     (fun s0 _ _ w0 => many_safe ctx _ _ s0 w0 (fun s' w _ => globalDecl_safe ctx _ (wf_reref ctx w)))
   refine bind_safeW ctx h0 (fun s1 r e1 => ?_)
   exact eofTail_safeW ctx r s1 (h0.wf_ok ctx hw e1)
+
+/-! ### every loop element consumes a token -/
+
+theorem ignoreUntil1_strict (pattern : P Unit) (hE : AtEof ctx pattern) (fuel : Nat) (s : St) (hw : WF ctx s)
+    (hf : ctx.toks.size - s.pos < fuel)
+    (hp : ∀ s', WF ctx s' → s.pos ≤ s'.pos → s'.refPos = s.refPos → Safe ctx pattern s') :
+    Strict (ignoreUntil1 ctx pattern fuel) s := by
+  intro s' a h
+  unfold ignoreUntil1 at h
+  cases hpat : pattern s with
+  | ok s1 u => rw [hpat] at h; cases h
+  | panic e => rw [hpat] at h; cases h
+  | err k x =>
+    rw [hpat] at h
+    simp only at h
+    obtain ⟨f, rfl⟩ : ∃ f, fuel = f + 1 := ⟨fuel - 1, by omega⟩
+    simp only [ignoreUntil0, hpat] at h
+    cases h2 : take1 ctx s with
+    | ok s1 t =>
+      rw [h2] at h
+      simp only at h
+      obtain ⟨rfl, ht⟩ := take1_ok ctx h2
+      have hw1 := take1_postW ctx h2
+      have w1 : WF ctx ({ s with pos := s.pos + 1 } : St) := ⟨by have := hw.1; simp; omega, hw1.2.1⟩
+      have hlt : s.pos < ctx.toks.size := (Array.getElem?_eq_some_iff.mp ht).1
+      have hf1 : ctx.toks.size - ({ s with pos := s.pos + 1 } : St).pos < f := by
+        show ctx.toks.size - (s.pos + 1) < f
+        omega
+      obtain ⟨_, g2, _⟩ := ignoreUntil0_safe ctx pattern hE s.refPos f s.pos _ _ w1 hf1 rfl (Post.refl ctx w1)
+        (fun s2 w2 l2 r2 => hp s2 w2 (by simp at l2; omega) r2)
+      have := (g2 _ _ h).1
+      simp at this
+      omega
+    | err k2 x2 => rw [h2] at h; cases h
+    | panic e => rw [h2] at h; cases h
+
+theorem stmtParseError_strict (s : St) (hw : WF ctx s) : Strict (stmtParseError ctx) s := by
+  have hX : Strict (pmap (fun (p : List Token × AstInfo) =>
+      Stmt.error { p.2 with errors := p.2.errors ++
+        [⟨p.2.range, .UnexpectedCharacters (p.1.flatMap (fun t => displayToken t.ty))⟩] })
+    (info (Parse.bind (docComments ctx) (fun _ => ignoreUntil1 ctx (peek (la ctx .stmt)) (loopFuel ctx))))) s := by
+    refine strict_pmap _ (strict_info ?_)
+    have w0 := wf_errBuf ctx hw []
+    have hd := docComments_safe ctx _ w0
+    refine strict_bind_right ctx hd (fun s1 _ e1 => ?_)
+    have w1 := hd.wf_ok ctx w0 e1
+    exact ignoreUntil1_strict ctx _ (peekla_atEof ctx .stmt) _ s1 w1 (loopFuel_ok ctx s1 w1) (fun s' w _ _ => peekla_safe ctx .stmt s' w)
+  intro s' a h
+  unfold stmtParseError at h
+  cases hx : (pmap (fun (p : List Token × AstInfo) =>
+      Stmt.error { p.2 with errors := p.2.errors ++
+        [⟨p.2.range, .UnexpectedCharacters (p.1.flatMap (fun t => displayToken t.ty))⟩] })
+    (info (Parse.bind (docComments ctx) (fun _ => ignoreUntil1 ctx (peek (la ctx .stmt)) (loopFuel ctx))))) s with
+  | ok s1 a1 => rw [hx] at h; cases h; exact hX _ _ hx
+  | err k x => rw [hx] at h; cases h
+  | panic e => rw [hx] at h; cases h
+
+/-- a statement that is parsed consumes at least one token -/
+theorem stmt_strict : ∀ (F : Nat) (s : St), WF ctx s → 2 * (ctx.toks.size - s.pos) + 2 ≤ F → Strict (parseStmt ctx F none) s
+  | 0, s, _, hf => by omega
+  | F + 1, s, hw, hf => by
+    have ih := ssafe ctx
+    show Strict (altList [
+        pmap (fun (p : Token × AstInfo) => Stmt.empty p.2) (info (tk ctx .Semic)),
+        parseIf ctx F none, parseWhile ctx F none, parseBlock ctx F none,
+        pmap Stmt.call (parseCall ctx none), pmap Stmt.assign (parseAssignment ctx none), stmtParseError ctx]) s
+    obtain ⟨f, rfl⟩ : ∃ f, F = f + 1 := ⟨F - 1, by omega⟩
+    have w0 := wf_errBuf ctx hw []
+    have hstmt : ∀ s1, WF ctx s1 → s.pos < s1.pos → Safe ctx (parseStmt ctx f none) { s1 with refPos := s1.pos } := by
+      intro s1 w1 l1
+      exact (ih f).stmt _ (wf_reref ctx w1) (by
+        have := w1.2
+        show 2 * (ctx.toks.size - s1.pos) + 2 ≤ f
+        omega)
+    refine strict_altList _ ?_
+    intro p hp
+    simp only [List.mem_cons, List.not_mem_nil, or_false] at hp
+    rcases hp with rfl | rfl | rfl | rfl | rfl | rfl | rfl
+    · exact strict_pmap _ (strict_info (strict_tk ctx _ _ w0))
+    · show Strict (pmap _ (info (ifInner ctx none none none (refParse (parseStmt ctx f))))) s
+      exact strict_pmap _ (strict_info (ifInner_safe ctx _ _ w0 (fun s1 w1 l1 => refParse_safe ctx w1 (hstmt s1 w1 l1))).2)
+    · show Strict (pmap _ (info (whileInner ctx none none (refParse (parseStmt ctx f))))) s
+      exact strict_pmap _ (strict_info (whileInner_safe ctx _ _ w0 (fun s1 w1 l1 => refParse_safe ctx w1 (hstmt s1 w1 l1))).2)
+    · show Strict (pmap _ (info (blockInner ctx none (parseStmt ctx f)))) s
+      exact strict_pmap _ (strict_info (blockInner_safe ctx _ _ w0 (fun s1 w1 l1 => hstmt s1 w1 l1)).2)
+    · show Strict (pmap Stmt.call (pmap _ (info (callInner ctx none none)))) s
+      exact strict_pmap _ (strict_pmap _ (strict_info (callInner_safe ctx _ w0).2))
+    · show Strict (pmap Stmt.assign (pmap _ (info (assignInner ctx none none)))) s
+      exact strict_pmap _ (strict_pmap _ (strict_info (assignInner_safe ctx _ w0).2))
+    · exact stmtParseError_strict ctx s hw
+
+theorem varDecl_strict (s : St) (hw : WF ctx s) : Strict (parseVarDecl ctx none) s := by
+  show Strict (alt2 (pmap _ (info (varDeclInner ctx none none))) (pmap _ (info (ignoreUntil1 ctx (peek (la ctx .var_dec)) (loopFuel ctx))))) s
+  have w0 := wf_errBuf ctx hw []
+  refine strict_alt2 (strict_pmap _ (strict_info (varDeclInner_safe ctx _ w0).2)) (strict_pmap _ (strict_info ?_))
+  exact ignoreUntil1_strict ctx _ (peekla_atEof ctx .var_dec) _ _ w0 (loopFuel_ok ctx _ w0) (fun s' w _ _ => peekla_safe ctx .var_dec s' w)
+
+theorem globalDecl_strict (s : St) (hw : WF ctx s) : Strict (parseGlobalDecl ctx none) s := by
+  show Strict (altList [pmap GlobalDecl.type (pmap _ (info (typeDeclInner ctx none none))),
+    pmap GlobalDecl.proc (pmap _ (info (procDeclInner ctx none))),
+    pmap _ (info (ignoreUntil1 ctx (peek (la ctx .global_dec)) (loopFuel ctx)))]) s
+  have w0 := wf_errBuf ctx hw []
+  refine strict_altList _ ?_
+  intro p hp
+  simp only [List.mem_cons, List.not_mem_nil, or_false] at hp
+  rcases hp with rfl | rfl | rfl
+  · exact strict_pmap _ (strict_pmap _ (strict_info (typeDeclInner_safe ctx _ w0).2))
+  · exact strict_pmap _ (strict_pmap _ (strict_info (procDeclInner_safe ctx _ w0).2))
+  · refine strict_pmap _ (strict_info ?_)
+    exact ignoreUntil1_strict ctx _ (peekla_atEof ctx .global_dec) _ _ w0 (loopFuel_ok ctx _ w0) (fun s' w _ _ => peekla_safe ctx .global_dec s' w)
+
+/-! ### what cannot fail -/
+
+theorem noerr_info {α} {p : P α} {s : St} (hp : NoErr p { s with errBuf := [] }) : NoErr (info p) s := by
+  intro k x h
+  unfold info at h
+  split at h
+  · cases h
+  · cases h1 : p { s with errBuf := [] } with
+    | ok s1 a =>
+      rw [h1] at h
+      simp only at h
+      split at h <;> cases h
+    | err k' x' => exact hp k' x' h1
+    | panic e => rw [h1] at h; cases h
+
+theorem noerr_refParse {α} {parseT : Option α → P α} {s : St} (hp : NoErr (parseT none) { s with refPos := s.pos }) :
+    NoErr (refParse parseT none) s := by
+  intro k x h
+  unfold refParse at h
+  simp only [Option.map_none, Option.isSome_none] at h
+  split at h
+  · cases h
+  · cases h1 : parseT none { s with refPos := s.pos } with
+    | ok s1 a => rw [h1] at h; cases h
+    | err k' x' => exact hp k' x' h1
+    | panic e => rw [h1] at h; cases h
+
+theorem comment_strict (s : St) : Strict (comment ctx) s := by
+  intro s' a h
+  unfold comment at h
+  cases h1 : take1 ctx s with
+  | ok s1 t =>
+    rw [h1] at h
+    obtain ⟨rfl, _⟩ := take1_ok ctx h1
+    cases hty : t.ty with
+    | Comment c => simp only [hty, Res.ok.injEq] at h; obtain ⟨rfl, _⟩ := h; simp
+    | _ => simp [hty] at h
+  | err k x => rw [h1] at h; cases h
+  | panic e => rw [h1] at h; cases h
+
+theorem docComments_noerr (s : St) (hw : WF ctx s) : NoErr (docComments ctx) s :=
+  many0_noerr ctx _ s.refPos _ s hw rfl (fun s' w _ _ => ⟨comment_safe ctx s' w, comment_strict ctx s'⟩)
+
+/-- in front of the final `Eof` a recovery finds its synchronisation token: it does not run off the end -/
+theorem ignoreUntil0_noerr (pattern : P Unit) (hE : AtEof ctx pattern) (he : EofLast ctx) (r : Nat) :
+    ∀ (fuel start : Nat) (s : St), WF ctx s → s.refPos = r → s.pos < ctx.toks.size →
+    (∀ s', WF ctx s' → s.pos ≤ s'.pos → s'.refPos = r → Safe ctx pattern s') →
+    NoErr (ignoreUntil0 ctx pattern fuel start) s
+  | 0, _, s, _, _, _, _ => by intro k x h; cases h
+  | fuel + 1, start, s, hw, hr, hB, hp => by
+    intro k x h
+    simp only [ignoreUntil0] at h
+    cases hpat : pattern s with
+    | ok s1 u => rw [hpat] at h; cases h
+    | panic e => rw [hpat] at h; cases h
+    | err k1 x1 =>
+      rw [hpat] at h
+      simp only at h
+      have hne : s.pos + 1 ≠ ctx.toks.size := fun hq => hE he s hw hq k1 x1 hpat
+      have ht : ctx.toks[s.pos]? = some ctx.toks[s.pos] := by simp [hB]
+      have h2 : take1 ctx s = .ok { s with pos := s.pos + 1 } ctx.toks[s.pos] := by simp [take1, ht]
+      rw [h2] at h
+      simp only at h
+      have w1 : WF ctx ({ s with pos := s.pos + 1 } : St) := ⟨by have := hw.1; simp; omega, by simp; omega⟩
+      exact ignoreUntil0_noerr pattern hE he r fuel start _ w1 (by simpa using hr) (by simp; omega)
+        (fun s' w l rr => hp s' w (by simp at l; omega) rr) k x h
+
+theorem paramDecl_noerr (he : EofLast ctx) (s : St) (hw : WF ctx s) (hB : s.pos < ctx.toks.size) :
+    NoErr (parseParamDecl ctx none) s := by
+  show NoErr (alt2 (pmap _ (info (paramDeclInner ctx none none)))
+    (pmap _ (info (fun s => ignoreUntil0 ctx (peek (la ctx .param_dec)) (loopFuel ctx) s.pos s)))) s
+  refine noerr_alt2 (noerr_pmap _ (noerr_info ?_))
+  have w0 := wf_errBuf ctx hw []
+  exact noerr_congr (q := ignoreUntil0 ctx (peek (la ctx .param_dec)) (loopFuel ctx) s.pos) rfl
+    (ignoreUntil0_noerr ctx _ (peekla_atEof ctx .param_dec) he s.refPos _ _ _ w0 rfl hB
+      (fun s' w _ _ => peekla_safe ctx .param_dec s' w))
+
+/-- one `, element` of a comma separated list: safe, and it consumes the comma -/
+theorem commaElem_both {α} (parseT : Option α → P α) (s : St) (hw : WF ctx s)
+    (hp : ∀ s', WF ctx s' → s.pos ≤ s'.pos → Safe ctx (parseT none) { s' with refPos := s'.pos }) :
+    Safe ctx (refParse (fun this => Parse.bind (tagK ctx (loopFuel ctx) .Comma) (fun _ => refParse parseT this)) none) s ∧
+    Strict (refParse (fun this => Parse.bind (tagK ctx (loopFuel ctx) .Comma) (fun _ => refParse parseT this)) none) s := by
+  have w' := wf_reref ctx hw
+  have hb := tkbind_both ctx .Comma (fun _ => refParse parseT none) _ w' (fun s3 _ w3 l3 _ =>
+    refParse_safe ctx w3 (hp s3 w3 (by have : ({ s with refPos := s.pos } : St).pos = s.pos := rfl; omega)))
+  exact ⟨refParse_safe ctx hw hb.1, strict_refParse hb.2⟩
+
+theorem paramList_noerr (he : EofLast ctx) (s : St) (hw : WF ctx s) (hB : s.pos < ctx.toks.size) :
+    NoErr (parseList ctx (fun (p : ParamDecl) => p.info.range) (parseParamDecl ctx) (loopFuel ctx) none) s := by
+  refine noerr_congr (parseList_eq ctx _ _ s) ?_
+  have h0 := refParse_safe ctx hw (paramDecl_safe ctx _ (wf_reref ctx hw))
+  refine noerr_bind (noerr_refParse (paramDecl_noerr ctx he _ (wf_reref ctx hw) hB)) (fun s1 head e1 => ?_)
+  have w1 := h0.wf_ok ctx hw e1
+  refine noerr_pmap _ (noerr_congr (many_none ctx _ _ _ s1) ?_)
+  exact many0_noerr ctx _ s1.refPos _ s1 w1 rfl (fun s2 w2 l2 _ =>
+    commaElem_both ctx (parseParamDecl ctx) s2 w2 (fun s' w _ => paramDecl_safe ctx _ (wf_reref ctx w)))
+
+/-- documentation comments, a keyword, then something that cannot fail: a failure is a missing keyword -/
+theorem doctk_err {β} (k : Kind) (tail : List (List Char) → Token → P β) (s : St) (hw : WF ctx s)
+    (hn : ∀ s2 doc t, WF ctx s2 → s.pos < s2.pos → s2.refPos = s.refPos →
+      (EofLast ctx → s.pos < ctx.toks.size → s2.pos < ctx.toks.size) → NoErr (tail doc t) s2)
+    (hk : k ≠ Kind.Eof := by decide) :
+    ∀ k' x, Parse.bind (docComments ctx) (fun doc => Parse.bind (tk ctx k) (tail doc)) s = .err k' x →
+      ∃ s1 doc, docComments ctx s = .ok s1 doc ∧ ∃ k'' x', tk ctx k s1 = .err k'' x' := by
+  intro k' x h
+  have hd := docComments_safe ctx s hw
+  unfold Parse.bind at h
+  cases h1 : docComments ctx s with
+  | ok s1 doc =>
+    rw [h1] at h
+    simp only at h
+    have p1 := hd.ok _ _ h1
+    have w1 := p1.wf ctx hw
+    have ht := tk_safe ctx k s1 w1 hk
+    cases h2 : tk ctx k s1 with
+    | ok s2 t =>
+      rw [h2] at h
+      simp only at h
+      have p2 := ht.ok _ _ h2
+      exact absurd h (hn s2 doc t (p2.wf ctx w1) (by have := p1.1; have := (tk_ok ctx w1 h2).1; omega)
+        (by rw [p2.2.2.1, p1.2.2.1]) (fun he hb => p2.2.2.2 he (p1.2.2.2 he hb)) k' x)
+    | err k2 x2 => exact ⟨s1, doc, rfl, k2, x2, h2⟩
+    | panic e => rw [h2] at h; cases h
+  | err k1 x1 => exact absurd h1 (docComments_noerr ctx s hw k1 x1)
+  | panic e => rw [h1] at h; cases h
+
+/-- name, `=`/`:`, type, `;` never fail -/
+theorem declTail_noerr (k k1 k2 : Kind) (m1 m2 m3 : Msg) (doc : List (List Char)) (s : St) (hw : WF ctx s)
+    (hk : k ≠ Kind.Eof) (hk1 : k1 ≠ Kind.Eof) (hk2 : k2 ≠ Kind.Eof) :
+    NoErr (Parse.bind (Parse.expect none (parseIdentifier ctx) (.ExpectedToken (chars "identifier"))) (fun name =>
+      Parse.bind (Parse.expect none (inc (altList [tk ctx k, confusable (tk ctx k1) m1, confusable (tk ctx k2) m2])) m3) (fun _ =>
+      Parse.bind (Parse.expect none (refTypeExpr ctx) (.ExpectedToken (chars "type expression"))) (fun te =>
+      Parse.bind (Parse.expect none (inc (tk ctx .Semic)) .MissingTrailingSemic) (fun _ =>
+        pure' (doc, name, te)))))) s := by
+  have h1 := expect_safe ctx (.ExpectedToken (chars "identifier")) hw (parser := parseIdentifier ctx) (ident_safe ctx s hw)
+  refine noerr_bind h1.2 (fun s2 _ e2 => ?_)
+  have w2 := h1.1.wf_ok ctx hw e2
+  have h2 := expect_safe ctx m3 w2 (parser := inc (altList [tk ctx k, confusable (tk ctx k1) m1, confusable (tk ctx k2) m2]))
+    (confAlt_safe ctx k k1 k2 m1 m2 s2 w2 hk hk1 hk2)
+  refine noerr_bind h2.2 (fun s3 _ e3 => ?_)
+  have w3 := h2.1.wf_ok ctx w2 e3
+  have h3 := expect_safe ctx (.ExpectedToken (chars "type expression")) w3 (parser := refTypeExpr ctx) (refTypeExpr_safe ctx s3 w3)
+  refine noerr_bind h3.2 (fun s4 _ e4 => ?_)
+  have w4 := h3.1.wf_ok ctx w3 e4
+  have h4 := expect_safe ctx .MissingTrailingSemic w4 (parser := inc (tk ctx .Semic)) (tk_safe ctx _ s4 w4)
+  exact noerr_bind h4.2 (fun s5 _ _ => noerr_pure _ s5)
+
+/-- a type declaration fails only if its keyword is missing -/
+theorem typeDeclInner_err (s : St) (hw : WF ctx s) : ∀ k x, typeDeclInner ctx none none s = .err k x →
+    ∃ s1 doc, docComments ctx s = .ok s1 doc ∧ ∃ k' x', tk ctx .Type s1 = .err k' x' := by
+  unfold typeDeclInner
+  exact doctk_err ctx .Type _ s hw (fun s2 doc _ w2 _ _ _ =>
+    declTail_noerr ctx _ _ _ _ _ _ doc s2 w2 (by decide) (by decide) (by decide))
+
+/-- a procedure declaration fails only if its keyword is missing -/
+theorem procDeclInner_err (he : EofLast ctx) (s : St) (hw : WF ctx s) (hB : s.pos < ctx.toks.size) :
+    ∀ k x, procDeclInner ctx none s = .err k x →
+    ∃ s1 doc, docComments ctx s = .ok s1 doc ∧ ∃ k' x', tk ctx .Proc s1 = .err k' x' := by
+  unfold procDeclInner
+  refine doctk_err ctx .Proc _ s hw (fun s2 doc _ w2 _ _ tg => ?_)
+  have b2 : s2.pos < ctx.toks.size := tg he hB
+  have h2 := expect_safe ctx (.ExpectedToken (chars "identifier")) w2 (parser := parseIdentifier ctx) (ident_safe ctx s2 w2)
+  refine noerr_bind h2.2 (fun s3 _ e3 => ?_)
+  have w3 := h2.1.wf_ok ctx w2 e3
+  have b3 : s3.pos < ctx.toks.size := (h2.1.ok _ _ e3).2.2.2 he b2
+  have h3 := expect_safe ctx (.MissingOpening '(') w3 (parser := inc (tk ctx .LParen)) (tk_safe ctx _ s3 w3)
+  refine noerr_bind h3.2 (fun s4 _ e4 => ?_)
+  have w4 := h3.1.wf_ok ctx w3 e4
+  have b4 : s4.pos < ctx.toks.size := (h3.1.ok _ _ e4).2.2.2 he b3
+  have hps : Safe ctx (alt2
+      (pmap (fun _ => ([] : List (Ref ParamDecl)))
+        (peek (altList [void (tk ctx .RParen), void (tk ctx .LCurly), void (tk ctx .Eof)])))
+      (parseList ctx (fun (p : ParamDecl) => p.info.range) (parseParamDecl ctx) (loopFuel ctx) none)) s4 := by
+    refine alt2_safe ctx (pmap_safe ctx _ (peek_safeW ctx w4 (altList_safeW ctx w4 _ ?_))) ?_
+    · intro p hp
+      simp only [List.mem_cons, List.not_mem_nil, or_false] at hp
+      rcases hp with rfl | rfl | rfl <;> exact void_safeW ctx (tk_safeW ctx _ _ w4)
+    · exact parseList_safe ctx _ _ s4 w4 (fun s' w _ => paramDecl_safe ctx _ (wf_reref ctx w))
+  refine noerr_bind (noerr_alt2 (paramList_noerr ctx he s4 w4 b4)) (fun s5 _ e5 => ?_)
+  have w5 := hps.wf_ok ctx w4 e5
+  have h5 := expect_safe ctx (.MissingClosing ')') w5 (parser := inc (tk ctx .RParen)) (tk_safe ctx _ s5 w5)
+  refine noerr_bind h5.2 (fun s6 _ e6 => ?_)
+  have w6 := h5.1.wf_ok ctx w5 e6
+  have h6 := expect_safe ctx (.MissingOpening '{') w6 (parser := inc (tk ctx .LCurly)) (tk_safe ctx _ s6 w6)
+  refine noerr_bind h6.2 (fun s7 _ e7 => ?_)
+  have w7 := h6.1.wf_ok ctx w6 e7
+  have h7 := many_safe ctx (fun (v : VarDecl) => v.info.range) (parseVarDecl ctx) s7 w7
+    (fun s' w _ => varDecl_safe ctx _ (wf_reref ctx w))
+  have n7 : NoErr (many ctx (fun (v : VarDecl) => v.info.range) (parseVarDecl ctx) (loopFuel ctx) none) s7 :=
+    noerr_congr (many_none ctx _ _ _ s7) (many0_noerr ctx _ s7.refPos _ s7 w7 rfl (fun s' w _ _ =>
+      ⟨refParse_safe ctx w (varDecl_safe ctx _ (wf_reref ctx w)), strict_refParse (varDecl_strict ctx _ (wf_reref ctx w))⟩))
+  refine noerr_bind n7 (fun s8 _ e8 => ?_)
+  have w8 := h7.wf_ok ctx w7 e8
+  have hfuel : ∀ s', WF ctx s' → 2 * (ctx.toks.size - ({ s' with refPos := s'.pos } : St).pos) + 2 ≤ stmtFuel ctx := by
+    intro s' w
+    have := w.2
+    show 2 * (ctx.toks.size - s'.pos) + 2 ≤ stmtFuel ctx
+    simp only [stmtFuel]; omega
+  have h8 := many_safe ctx (fun (s : Stmt) => s.info.range) (parseStmt ctx (stmtFuel ctx)) s8 w8
+    (fun s' w _ => stmt_safe ctx _ (wf_reref ctx w))
+  have n8 : NoErr (many ctx (fun (s : Stmt) => s.info.range) (parseStmt ctx (stmtFuel ctx)) (loopFuel ctx) none) s8 :=
+    noerr_congr (many_none ctx _ _ _ s8) (many0_noerr ctx _ s8.refPos _ s8 w8 rfl (fun s' w _ _ =>
+      ⟨refParse_safe ctx w (stmt_safe ctx _ (wf_reref ctx w)),
+       strict_refParse (stmt_strict ctx _ _ (wf_reref ctx w) (hfuel s' w))⟩))
+  refine noerr_bind n8 (fun s9 _ e9 => ?_)
+  have w9 := h8.wf_ok ctx w8 e9
+  have h9 := expect_safe ctx (.MissingClosing '}') w9 (parser := inc (tk ctx .RCurly)) (tk_safe ctx _ s9 w9)
+  exact noerr_bind h9.2 (fun s10 _ _ => noerr_pure _ s10)
+
+/-! ### token parsers look at the position only -/
+
+/-- `s` with the position of `x` -/
+def at' (s x : St) : St := { s with pos := x.pos }
+
+def mapSt {α} (f : St → St) : Res α → Res α
+  | .ok s a => .ok (f s) a
+  | .err k s => .err k (f s)
+  | .panic e => .panic e
+
+theorem st_pos_eta (s2 : St) (p : Nat) (h : s2.pos = p) : s2 = { s2 with pos := p } := by
+  cases s2; simp at h; subst h; rfl
+
+theorem take1_indep (s s2 : St) (h : s2.pos = s.pos) : take1 ctx s2 = mapSt (at' s2) (take1 ctx s) := by
+  unfold take1
+  rw [h]
+  cases ctx.toks[s.pos]? with
+  | none => simp [mapSt, at'] <;> exact st_pos_eta _ _ h
+  | some t => simp [mapSt, at', h]
+
+theorem comment_indep (s s2 : St) (h : s2.pos = s.pos) : comment ctx s2 = mapSt (at' s2) (comment ctx s) := by
+  unfold comment
+  rw [take1_indep ctx s s2 h]
+  cases h1 : take1 ctx s with
+  | ok s1 t =>
+    simp only [mapSt]
+    cases t.ty <;> simp [mapSt, at'] <;> exact st_pos_eta _ _ h
+  | err k x => simp [mapSt]
+  | panic e => simp [mapSt]
+
+theorem at'_at' (s2 a b : St) : at' (at' s2 a) b = at' s2 b := rfl
+
+theorem comments_indep : ∀ (fuel : Nat) (s s2 : St), s2.pos = s.pos →
+    many0 (comment ctx) fuel s2 = mapSt (at' s2) (many0 (comment ctx) fuel s)
+  | 0, _, _, _ => rfl
+  | fuel + 1, s, s2, h => by
+    simp only [many0]
+    rw [comment_indep ctx s s2 h]
+    cases h1 : comment ctx s with
+    | err k x => simp [mapSt, at'] <;> exact st_pos_eta _ _ h
+    | panic e => simp [mapSt]
+    | ok s1 c =>
+      simp only [mapSt]
+      have hp : (at' s2 s1).pos = s1.pos := rfl
+      rw [hp, h]
+      by_cases hq : s1.pos = s.pos
+      · simp [hq, mapSt, at'] <;> exact st_pos_eta _ _ h
+      · have hb : (s1.pos == s.pos) = false := by simpa using hq
+        simp only [hb, Bool.false_eq_true, if_false]
+        rw [comments_indep fuel s1 (at' s2 s1) rfl]
+        cases many0 (comment ctx) fuel s1 <;> simp [mapSt, at']
+
+theorem tag_indep (fuel : Nat) (pred : TokenType → Bool) (s s2 : St) (h : s2.pos = s.pos) :
+    tag ctx fuel pred s2 = mapSt (at' s2) (tag ctx fuel pred s) := by
+  unfold tag
+  rw [comments_indep ctx fuel s s2 h]
+  cases h1 : many0 (comment ctx) fuel s with
+  | ok s1 cs =>
+    simp only [mapSt]
+    rw [take1_indep ctx s1 (at' s2 s1) rfl]
+    cases h2 : take1 ctx s1 with
+    | ok s3 t =>
+      simp only [mapSt]
+      by_cases hp : pred t.ty = true
+      · simp [hp, mapSt, at']
+      · simp [hp, mapSt, at'] <;> exact st_pos_eta _ _ h
+    | err k x => simp [mapSt, at']
+    | panic e => simp [mapSt]
+  | err k x => simp [mapSt]
+  | panic e => simp [mapSt]
+
+/-! ### the declaration loop ends in front of the final `Eof` -/
+
+theorem many0_stop {α} (p : P α) : ∀ (fuel : Nat) (s s' : St) (l : List α), many0 p fuel s = .ok s' l →
+    ∃ k x, p s' = .err k x
+  | 0, _, _, _, h => by cases h
+  | fuel + 1, s, s', l, h => by
+    simp only [many0] at h
+    cases h1 : p s with
+    | err k x => rw [h1] at h; cases h; exact ⟨k, x, h1⟩
+    | panic e => rw [h1] at h; cases h
+    | ok s1 a =>
+      rw [h1] at h
+      simp only at h
+      split at h
+      · cases h
+      · cases h2 : many0 p fuel s1 with
+        | ok s2 as => rw [h2] at h; cases h; exact many0_stop p fuel s1 _ _ h2
+        | err k x => rw [h2] at h; cases h
+        | panic e => rw [h2] at h; cases h
+
+theorem pmap_err_inv {α β} {p : P α} {f : α → β} {s x : St} {k : Bool} (h : pmap f p s = .err k x) : p s = .err k x := by
+  unfold pmap at h
+  cases h1 : p s with
+  | ok s1 a => rw [h1] at h; cases h
+  | err k' x' =>
+    rw [h1] at h
+    simp only [Res.err.injEq] at h
+    obtain ⟨rfl, rfl⟩ := h
+    rfl
+  | panic e => rw [h1] at h; cases h
+
+theorem info_err_inv {α} {p : P α} {s x : St} {k : Bool} (h : info p s = .err k x) :
+    ∃ x', p { s with errBuf := [] } = .err k x' := by
+  unfold info at h
+  split at h
+  · cases h
+  · cases h1 : p { s with errBuf := [] } with
+    | ok s1 a => rw [h1] at h; simp only at h; split at h <;> cases h
+    | err k' x' => rw [h1] at h; cases h; exact ⟨x', rfl⟩
+    | panic e => rw [h1] at h; cases h
+
+theorem info_ok_inv {α} {p : P α} {s s' : St} {r : α × AstInfo} (h : info p s = .ok s' r) :
+    ∃ s1, p { s with errBuf := [] } = .ok s1 r.1 ∧ s' = { s1 with errBuf := s.errBuf } := by
+  unfold info at h
+  split at h
+  · cases h
+  · cases h1 : p { s with errBuf := [] } with
+    | ok s1 a =>
+      rw [h1] at h
+      simp only at h
+      split at h
+      · cases h
+      · cases h; exact ⟨s1, rfl, rfl⟩
+    | err k' x' => rw [h1] at h; cases h
+    | panic e => rw [h1] at h; cases h
+
+theorem refParse_err_inv {α} {parseT : Option α → P α} {s x : St} {k : Bool} (h : refParse parseT none s = .err k x) :
+    ∃ x', parseT none { s with refPos := s.pos } = .err k x' := by
+  unfold refParse at h
+  simp only [Option.map_none, Option.isSome_none] at h
+  split at h
+  · cases h
+  · cases h1 : parseT none { s with refPos := s.pos } with
+    | ok s1 a => rw [h1] at h; cases h
+    | err k' x' => rw [h1] at h; cases h; exact ⟨x', rfl⟩
+    | panic e => rw [h1] at h; cases h
+
+theorem alt2_err_inv {α} {p q : P α} {s x : St} {k : Bool} (h : alt2 p q s = .err k x) :
+    (∃ k' x', p s = .err k' x') ∧ q s = .err k x := by
+  unfold alt2 at h
+  cases h1 : p s with
+  | ok s1 a => rw [h1] at h; cases h
+  | err k' x' => rw [h1] at h; exact ⟨⟨k', x', rfl⟩, h⟩
+  | panic e => rw [h1] at h; cases h
+
+theorem alt2_ok_inv {α} {p q : P α} {s s' : St} {a : α} (h : alt2 p q s = .ok s' a) :
+    p s = .ok s' a ∨ q s = .ok s' a := by
+  unfold alt2 at h
+  cases h1 : p s with
+  | ok s1 a1 => rw [h1] at h; exact Or.inl h
+  | err k' x' => rw [h1] at h; exact Or.inr h
+  | panic e => rw [h1] at h; cases h
+
+theorem void_ok_inv {α} {p : P α} {s s' : St} {u : Unit} (h : void p s = .ok s' u) : ∃ a, p s = .ok s' a := by
+  unfold void pmap at h
+  cases h1 : p s with
+  | ok s1 a => rw [h1] at h; cases h; exact ⟨a, rfl⟩
+  | err k' x' => rw [h1] at h; cases h
+  | panic e => rw [h1] at h; cases h
+
+/-- a token parser that succeeds behind the documentation comments' start succeeds behind them too -/
+theorem tk_behind_docs (k : Kind) (s s1 : St) (doc : List (List Char)) (hd : docComments ctx s = .ok s1 doc)
+    (s2 : St) (t : Token) (h : tk ctx k s = .ok s2 t) : ∃ s2' t', tk ctx k s1 = .ok s2' t' := by
+  have hd' : many0 (comment ctx) (loopFuel ctx) s = .ok s1 doc := hd
+  obtain ⟨kc, xc, hc⟩ := many0_stop (comment ctx) _ _ _ _ hd'
+  have h' : tag ctx (loopFuel ctx) (fun ty => ty.kind == k) s = .ok s2 t := h
+  unfold tag at h'
+  rw [hd'] at h'
+  simp only at h'
+  have hm1 : many0 (comment ctx) (loopFuel ctx) s1 = .ok s1 [] := by
+    show many0 (comment ctx) (ctx.toks.size + 1 + 1) s1 = _
+    simp [many0, hc]
+  cases h2 : take1 ctx s1 with
+  | ok s3 t3 =>
+    rw [h2] at h'
+    simp only at h'
+    by_cases hp : (t3.ty.kind == k) = true
+    · refine ⟨s3, t3, ?_⟩
+      show tag ctx (loopFuel ctx) (fun ty => ty.kind == k) s1 = _
+      simp [tag, hm1, h2, hp]
+    · simp [hp] at h'
+  | err k2 x2 => rw [h2] at h'; cases h'
+  | panic e => rw [h2] at h'; cases h'
+
+/-- **`Program::parse` succeeds** on every token array that ends with its only `Eof` -/
+theorem program_total (he : EofLast ctx) : ∃ s' p, parseProgram ctx none { pos := 0 } = .ok s' p := by
+  have hw : WF ctx ({ pos := 0 } : St) := ⟨Nat.le_refl _, Nat.zero_le _⟩
+  have hB0 : (0 : Nat) < ctx.toks.size := by
+    obtain ⟨t, ht, _⟩ := he.last
+    have := (Array.getElem?_eq_some_iff.mp ht).1
+    omega
+  -- the loop over the declarations
+  have w0 : WF ctx ({ ({ pos := 0 } : St) with errBuf := [] }) := hw
+  have hM := many0_safe ctx (refParse (parseGlobalDecl ctx) none) 0 (loopFuel ctx) { pos := 0 } hw (loopFuel_ok ctx _ hw) rfl
+    (fun s' w _ _ => refParse_safe ctx w (globalDecl_safe ctx _ (wf_reref ctx w)))
+  have nM := many0_noerr ctx (refParse (parseGlobalDecl ctx) none) 0 (loopFuel ctx) { pos := 0 } hw rfl
+    (fun s' w _ _ => ⟨refParse_safe ctx w (globalDecl_safe ctx _ (wf_reref ctx w)),
+      strict_refParse (globalDecl_strict ctx _ (wf_reref ctx w))⟩)
+  cases hL : many0 (refParse (parseGlobalDecl ctx) none) (loopFuel ctx) { pos := 0 } with
+  | err k x => exact absurd hL (nM k x)
+  | panic e => exact absurd hL (hM.np e)
+  | ok sE ds =>
+    have pE := hM.ok _ _ hL
+    have wE := pE.wf ctx hw
+    have bE : sE.pos < ctx.toks.size := pE.2.2.2 he hB0
+    -- where it stops no declaration can be parsed
+    obtain ⟨k, x, hstop⟩ := many0_stop _ _ _ _ _ hL
+    obtain ⟨x1, hg⟩ := refParse_err_inv hstop
+    have hg' : altList [pmap GlobalDecl.type (pmap (fun (p : (List (List Char) × Option Identifier × Option (Ref TypeExpr)) × AstInfo) =>
+          ({ doc := p.1.1, name := p.1.2.1, typeExpr := p.1.2.2, info := p.2 } : TypeDecl)) (info (typeDeclInner ctx none none))),
+        pmap GlobalDecl.proc (pmap (fun (p : (List (List Char) × Option Identifier × List (Ref ParamDecl) × List (Ref VarDecl) × List (Ref Stmt)) × AstInfo) =>
+          ({ doc := p.1.1, name := p.1.2.1, params := p.1.2.2.1, vars := p.1.2.2.2.1, stmts := p.1.2.2.2.2, info := p.2 } : ProcDecl))
+          (info (procDeclInner ctx none))),
+        pmap (fun (p : List Token × AstInfo) =>
+          GlobalDecl.error { p.2 with errors := p.2.errors ++
+            [⟨p.2.range, .UnexpectedCharacters (p.1.flatMap (fun t => displayToken t.ty))⟩] })
+          (info (ignoreUntil1 ctx (peek (la ctx .global_dec)) (loopFuel ctx)))] { sE with refPos := sE.pos } = .err k x1 := hg
+    simp only [altList] at hg'
+    obtain ⟨⟨ka, xa, ha⟩, hbc⟩ := alt2_err_inv hg'
+    obtain ⟨⟨kb, xb, hb⟩, hc⟩ := alt2_err_inv hbc
+    have wR := wf_reref ctx wE
+    have wR0 : WF ctx ({ ({ sE with refPos := sE.pos } : St) with errBuf := [] }) := wR
+    -- (a) `type` is not next, (b) `proc` is not next
+    obtain ⟨xa', ha'⟩ := info_err_inv (pmap_err_inv (pmap_err_inv ha))
+    obtain ⟨d1, doc, hd, kt, xt, htype⟩ := typeDeclInner_err ctx _ wR0 _ _ ha'
+    obtain ⟨xb', hb'⟩ := info_err_inv (pmap_err_inv (pmap_err_inv hb))
+    obtain ⟨d1', doc', hd', kp, xp, hproc⟩ := procDeclInner_err ctx he _ wR0 bE _ _ hb'
+    rw [hd] at hd'
+    cases hd'
+    -- (c) a synchronisation token is next
+    obtain ⟨xc', hc'⟩ := info_err_inv (pmap_err_inv hc)
+    have hpat : ∃ s1 u, peek (la ctx .global_dec) { ({ sE with refPos := sE.pos } : St) with errBuf := [] } = .ok s1 u := by
+      unfold ignoreUntil1 at hc'
+      cases hp : peek (la ctx .global_dec) { ({ sE with refPos := sE.pos } : St) with errBuf := [] } with
+      | ok s1 u => exact ⟨s1, u, rfl⟩
+      | panic e => rw [hp] at hc'; cases hc'
+      | err kq xq =>
+        rw [hp] at hc'
+        simp only at hc'
+        exact absurd hc' (ignoreUntil0_noerr ctx _ (peekla_atEof ctx .global_dec) he sE.pos _ _ _ wR0 rfl bE
+          (fun s' w _ _ => peekla_safe ctx .global_dec s' w) _ _)
+    obtain ⟨s1, u, hpk⟩ := hpat
+    have hla : ∃ s2 u2, altList [void (tk ctx .Proc), void (tk ctx .Type), void (tk ctx .Eof)]
+        { ({ sE with refPos := sE.pos } : St) with errBuf := [] } = .ok s2 u2 := by
+      unfold peek at hpk
+      cases hl : la ctx .global_dec { ({ sE with refPos := sE.pos } : St) with errBuf := [] } with
+      | ok s2 u2 =>
+        refine ⟨s2, u2, ?_⟩
+        have : la ctx .global_dec = altList [void (tk ctx .Proc), void (tk ctx .Type), void (tk ctx .Eof)] := by
+          simp only [la, lookAhead, Gen.lookAheadSet, List.map]
+        rw [← this]; exact hl
+      | err kq xq => rw [hl] at hpk; cases hpk
+      | panic e => rw [hl] at hpk; cases hpk
+    obtain ⟨s2, u2, hla⟩ := hla
+    simp only [altList] at hla
+    have heof : ∃ s3 t, tk ctx .Eof { ({ sE with refPos := sE.pos } : St) with errBuf := [] } = .ok s3 t := by
+      rcases alt2_ok_inv hla with h1 | h23
+      · obtain ⟨t, ht⟩ := void_ok_inv h1
+        obtain ⟨_, _, hcontra⟩ := tk_behind_docs ctx .Proc _ _ _ hd _ _ ht
+        rw [hproc] at hcontra; cases hcontra
+      · rcases alt2_ok_inv h23 with h2 | h3
+        · obtain ⟨t, ht⟩ := void_ok_inv h2
+          obtain ⟨_, _, hcontra⟩ := tk_behind_docs ctx .Type _ _ _ hd _ _ ht
+          rw [htype] at hcontra; cases hcontra
+        · obtain ⟨t, ht⟩ := void_ok_inv h3
+          exact ⟨s2, t, ht⟩
+    obtain ⟨s3, t, heof⟩ := heof
+    obtain ⟨hlt3, hk3, htok3⟩ := tk_ok ctx wR0 heof
+    have hsz : s3.pos = ctx.toks.size := by
+      have := he.only _ _ htok3 hk3
+      omega
+    -- the same token parser in the state the loop hands on
+    have hfin : tk ctx .Eof { sE with errBuf := ({ pos := 0 } : St).errBuf } =
+        .ok (at' { sE with errBuf := ({ pos := 0 } : St).errBuf } s3) t := by
+      have := tag_indep ctx (loopFuel ctx) (fun ty => ty.kind == Kind.Eof)
+        { ({ sE with refPos := sE.pos } : St) with errBuf := [] } { sE with errBuf := ({ pos := 0 } : St).errBuf } rfl
+      have heof' : tag ctx (loopFuel ctx) (fun ty => ty.kind == Kind.Eof)
+          { ({ sE with refPos := sE.pos } : St) with errBuf := [] } = .ok s3 t := heof
+      rw [heof'] at this
+      exact this
+    -- assemble: no panic (`program_safe`), no failure
+    have hnp := (program_safe ctx).np
+    have hne : NoErr (parseProgram ctx none) { pos := 0 } := by
+      show NoErr (pmap (fun (p : List (Ref GlobalDecl) × AstInfo) => ({ decls := p.1, info := p.2 } : Program))
+        (Parse.bind (info (many ctx (fun (g : GlobalDecl) => g.info.range) (parseGlobalDecl ctx) (loopFuel ctx) none))
+          (fun r => Parse.bind (allConsuming ctx (tk ctx .Eof)) (fun _ => pure' r)))) { pos := 0 }
+      refine noerr_pmap _ (noerr_bind (noerr_info (noerr_congr (many_none ctx _ _ _ _) nM)) (fun s1 r e1 => ?_))
+      obtain ⟨sX, hX, rfl⟩ := info_ok_inv e1
+      have hX' : many0 (refParse (parseGlobalDecl ctx) none) (loopFuel ctx) { pos := 0 } = .ok sX r.1 :=
+        (many_none ctx (fun (g : GlobalDecl) => g.info.range) (parseGlobalDecl ctx) (loopFuel ctx) _).symm.trans hX
+      rw [hL] at hX'
+      simp only [Res.ok.injEq] at hX'
+      obtain ⟨rfl, _⟩ := hX'
+      intro k2 x2 hx
+      simp only [Parse.bind, allConsuming, hfin, at', hsz, beq_self_eq_true, if_true, pure'] at hx
+      cases hx
+    cases hr : parseProgram ctx none { pos := 0 } with
+    | ok s' p => exact ⟨s', p, rfl⟩
+    | err k2 x2 => exact absurd hr (hne k2 x2)
+    | panic e => exact absurd hr (hnp e)
 
 end Spl.Total
